@@ -262,3 +262,44 @@ def incomplete_scripts(thorough=False):
             d[where] = " via " + pth
             out.append(ADDR_SKELETON % d)
     return out
+
+
+# ---------------------------------------------------------------------------------------------
+# field clauses: transfers between shares with source / destination field lists that differ in name
+# and length, source share existing with / without those fields or missing
+# ---------------------------------------------------------------------------------------------
+
+FIELD_SKELETON = """house h1
+init a.b with x 1 y 2
+init e.f with value 3
+%(house)s
+framer fa be active first a
+  frame a
+%(frame)s
+  frame a2
+"""
+FIELD_DST = [[], ["u"], ["u", "v"], ["x"], ["x", "y"], ["value"], ["u", "v", "t"]]
+FIELD_SRC = [[], ["w"], ["w", "z"], ["x"], ["x", "y"], ["x", "z", "w"], ["value"], ["y", "x"]]
+FIELD_SRC_SHARES = ["a.b", "e.f", "n.m", ".a.b", "a.b of root"]
+FIELD_DST_SHARES = ["c.d", "a.b", "e.f"]
+FIELD_TEMPLATES = [("house", "init {D} from {S}"), ("frame", "    copy {S} into {D}"), ("frame", "    inc {D} from {S}"),
+                   ("frame", "    set {D} from {S}"), ("frame", "    go next if {S} >= {D}"),
+                   ("frame", "    put {S} into {D}"), ("house", "init {D} with {S}")]
+
+
+def _addr(fields, share):
+    return (" ".join(fields) + " in " + share) if fields else share
+
+
+def field_scripts(thorough=False):
+    out = []
+    templates = FIELD_TEMPLATES if thorough else FIELD_TEMPLATES[:4]
+    for where, t in templates:
+        for df in FIELD_DST:
+            for sf in FIELD_SRC:
+                for ss in (FIELD_SRC_SHARES if thorough else FIELD_SRC_SHARES[:3]):
+                    for ds in FIELD_DST_SHARES:
+                        d = {"house": "", "frame": ""}
+                        d[where] = t.format(D=_addr(df, ds), S=_addr(sf, ss))
+                        out.append(FIELD_SKELETON % d)
+    return out
